@@ -160,6 +160,35 @@ def run(ctx):
             copy_ok = None
         elif newv[0] == "clone" or (newv[0] == "call" and newv[1].endswith("to_vec")):
             copy_ok = True
+        elif newv[0] == "call" and (newv[1].endswith("::with_capacity") or newv[1].endswith("Vec::<T>::new")):
+            # an empty vector filled by `extend(ss.iter().cloned())` and padded by `resize(n, None)`
+            ext = [e for e in p.calls() if e["callee"].endswith("::extend") and e["args"] and strip(e["args"][0]) == newv]
+            rsz = [e for e in p.calls() if e["callee"].endswith("::resize") and len(e["args"]) == 3 and strip(e["args"][0]) == newv]
+            lay = iters.layout(ext[0]["args"][1]) if len(ext) == 1 and len(ext[0]["args"]) == 2 else None
+            if lay != ("elem", ssp, 0):
+                r3["copy"] = False
+                r3why["copy"] = "the fresh vector is not filled with all the old entries in order (extend(%s))" % (
+                    show(ext[0]["args"][1])[:60] if ext else "none")
+            copy_ok = True
+            if len(rsz) == 1:
+                fill = strip(rsz[0]["args"][2])
+                n0 = strip(rsz[0]["args"][1])
+                if not (fill[0] == "agg" and fill[2] == "None"):
+                    r3["fresh"] = False
+                    r3why["fresh"] = "padding is %s, not None" % show(fill)
+                okn = (n0[0] == "binop" and n0[1] == "Add" and strip(n0[2]) == sid and n0[3][0] == "const" and n0[3][3] == 1) or \
+                    (n0[0] == "call" and n0[1].endswith("::max"))
+                if n0[0] == "call" and n0[1].endswith("::len") and is_param(n0[2][0], 3):
+                    # the old length is kept: needs self.id < len(ss) on this path
+                    okn = any(c[0] == "binop" and ((strip(c[2]) == sid and strip(c[3]) == n0 and ((c[1] == "Lt" and v is True) or (c[1] == "Ge" and v is False))) or
+                                                   (strip(c[3]) == sid and strip(c[2]) == n0 and ((c[1] == "Gt" and v is True) or (c[1] == "Le" and v is False))))
+                              for c, v, bb in p.decisions)
+                if not okn:
+                    r3["len"] = False
+                    r3why["len"] = "the padded length %s is not len(ss) (with self.id < len established) or self.id+1" % show(n0)[:60]
+            else:
+                r3["len"] = False
+                r3why["len"] = "the fresh vector is not padded to a length that covers self.id"
         else:
             r3["fresh"] = False
             r3why["fresh"] = "result vector is %s" % show(newv)
